@@ -7,6 +7,7 @@
 //! trusted: R15 (deep slices, k): node_failed_permanent: the expression choosing the other end of each of the failed node's channels and the predicate of the `retain` on that neighbour's channel list, verbatim as functions (ChannelEnds is a two-field skeleton of ChannelInfo); removing the node, its channels and emptied neighbours from the maps and recording the removals are dropped and not claimed
 //! trusted: assume_specification for core::cmp::max / core::cmp::min (std definitions): present in every unit so that a change that introduces them is verified instead of being rejected by the tool
 //! trusted: failed_for_good: NetworkGraph::channel_failed_permanent_with_time is extracted whole; R5: `self.channels.write().unwrap()` / `self.nodes.write().unwrap()` / `self.removed_channels.lock().unwrap()` are the fields themselves (one caller, no other thread), remove_channel_in_nodes is a recorder of (scid, channel)
+//! trusted: unlink: R15 (deep slice of the function-local macro remove_from_node! in remove_channel_in_nodes_callback): the block run for a node found in the map, verbatim as a function of that node's entry; R6e: `V.retain(|c| scid != *c)` is the wrapper retain_other_channels with std's meaning (the elements other than scid, in order); the entry is a by-value skeleton, the caller's remove_node closure a recorder; the panic for an unknown node is outside
 use vstd::prelude::*;
 verus! {
 use core::cmp;
@@ -471,6 +472,58 @@ impl Graph {
     
 //@end
 }
+}
+
+// ---- remove_channel_in_nodes_callback: a removed channel disappears from a node's channel list, and a node left without channels is removed with it ----
+pub mod unlink {
+use vstd::prelude::*;
+pub struct NodeInfo { pub channels: Vec<u64>, pub node_counter: u32 }
+pub struct OccupiedEntry { pub node: NodeInfo }
+impl OccupiedEntry {
+    pub fn get(&self) -> (r: &NodeInfo) ensures *r == self.node { &self.node }
+    pub fn get_mut(&mut self) -> (r: &mut NodeInfo) ensures *r == old(self).node, final(self).node == *final(r) { &mut self.node }
+}
+pub struct Counters { pub v: Vec<u32> }
+impl Counters { #[verifier::external_body] pub fn push(&mut self, c: u32) ensures final(self).v@ == old(self).v@.push(c) { unimplemented!() } }
+// the caller's `remove_node` closure: takes the entry out of the map (recorded)
+pub struct RemoveNode { pub removed: Ghost<Seq<NodeInfo>> }
+impl RemoveNode { #[verifier::external_body] pub fn call(&mut self, e: OccupiedEntry) ensures final(self).removed@ == old(self).removed@.push(e.node) { unimplemented!() } }
+pub open spec fn without(s: Seq<u64>, scid: u64) -> Seq<u64> { s.filter(|c: u64| c != scid) }
+//@extract lightning/src/routing/gossip.rs :: impl NetworkGraph :: fn remove_channel_in_nodes_callback
+//@metavars
+//@slice R15
+    macro_rules! remove_from_node { ($node_id: expr) => { if let IndexedMapEntry::Occupied(mut entry) = nodes.entry($node_id) { $body:any } else { $p:any } }; }
+//@with
+    fn unlink_channel_from_one_of_its_nodes(entry_: OccupiedEntry, short_channel_id: u64, removed_node_counters: &mut Counters, remove_node: &mut RemoveNode) -> Option<OccupiedEntry> {
+        let mut entry = entry_;
+        $body
+        Some(entry) }
+//@rw R6e
+    entry.get_mut().channels.retain(|chan_id| short_channel_id != *chan_id);
+//@with
+    retain_other_channels(&mut entry.get_mut().channels, short_channel_id);
+//@rw R5
+    self.removed_node_counters.lock().unwrap().push(
+//@with
+    removed_node_counters.push(
+//@rw R5
+    remove_node(entry);
+//@with
+    remove_node.call(entry); return None;
+//@ret r
+//@ensures P C17 a-removed-channel-leaves-the-channel-list-of-its-node-and-a-node-left-without-channels-is-removed-with-its-counter-recorded
+    ({ let rest = without(entry_.node.channels@, short_channel_id);
+       &&& rest.len() > 0 ==> r is Some && r->Some_0.node.channels@ == rest && r->Some_0.node.node_counter == entry_.node.node_counter
+              && final(remove_node).removed@ == old(remove_node).removed@ && final(removed_node_counters).v@ == old(removed_node_counters).v@
+       &&& rest.len() == 0 ==> r is None && final(removed_node_counters).v@ == old(removed_node_counters).v@.push(entry_.node.node_counter)
+              && final(remove_node).removed@.len() == old(remove_node).removed@.len() + 1 && final(remove_node).removed@.last().node_counter == entry_.node.node_counter }),
+//@mutant node_without_channels_stays_in_the_graph
+    if entry.get().channels.is_empty() {
+//@with
+    if false && entry.get().channels.is_empty() {
+//@end
+// std: Vec::retain keeps the elements for which the closure answers true, in order
+#[verifier::external_body] pub fn retain_other_channels(v: &mut Vec<u64>, scid: u64) ensures final(v)@ == without(old(v)@, scid) { unimplemented!() }
 }
 }
 fn main() {}
